@@ -17,6 +17,12 @@ import (
 // (ModePutUploadPin under its root), then F0 cached - the shared chunk c4 was
 // stored by the upload; (2) F1 uploaded without pins, then F0 cached; (3) F0
 // cached first (c4 stored by the request), then F1 uploaded and pinned.
+// Start states with chunks pinned MORE THAN ONCE (real operations; there the
+// collection is a full sweep: capacity 1, target 0, every file of the gc index
+// is a candidate): (4) F1 uploaded and pinned, every chunk of F1 pinned a
+// second time under the root of F1, then F0 cached; (5) F1 and F0 both
+// uploaded and pinned under their roots - the shared chunk c4 carries two pins,
+// nothing is cached. An unpin under a root then leaves the chunk pinned.
 // Then a history of request puts, uploads, pinned uploads, pinned request puts,
 // pins and unpins of single chunks of either file, and one collection (plain,
 // or racing with an access to a root). After the collection:
@@ -27,6 +33,14 @@ import (
 func VerifC12_History() {
 	capacity := uint64(zzverif.Param("capacity", 2, 2))
 	steps := zzverif.Param("steps", 1, 2)
+	// start states 4.. (chunks pinned more than once): full-sweep collection
+	starts := zzverif.Param("start-states", 6, 6)
+	stepsRepinned := zzverif.Param("steps-from-repinned-start", 1, 2)
+	start := zzverif.Choose("start", starts)
+	if start >= 4 {
+		capacity = uint64(zzverif.Param("capacity-full-sweep", 1, 1))
+		steps = stepsRepinned
+	}
 	r := verifC13newRig(capacity)
 	r.ci.files = verifC13universe()
 	for _, f := range r.ci.files {
@@ -56,6 +70,10 @@ func VerifC12_History() {
 		if op == verifC13opUnpin && err == nil && pins == 1 {
 			cacheable[f] = true
 		}
+		if op == verifC13opUnpin && err == nil && pins > 1 {
+			// the chunk stays pinned: nothing becomes collectable
+			zzverif.Reach("C12-unpin-left-the-chunk-pinned")
+		}
 		return err
 	}
 	cacheF0 := func() {
@@ -68,7 +86,11 @@ func VerifC12_History() {
 			zzverif.Assert(apply(op, 1, k) == nil, "start state: upload succeeds")
 		}
 	}
-	start := zzverif.Choose("start", 4)
+	uploadF0 := func(op int) {
+		for k := 0; k < 3; k++ {
+			zzverif.Assert(apply(op, 0, k) == nil, "start state: upload succeeds")
+		}
+	}
 	switch start {
 	case 0:
 		cacheF0()
@@ -81,6 +103,15 @@ func VerifC12_History() {
 	case 3:
 		cacheF0()
 		uploadF1(verifC13opUploadPin)
+	case 4:
+		uploadF1(verifC13opUploadPin)
+		for k := 0; k < 3; k++ {
+			zzverif.Assert(apply(verifC13opPin, 1, k) == nil, "start state: pin succeeds")
+		}
+		cacheF0()
+	case 5:
+		uploadF1(verifC13opUploadPin)
+		uploadF0(verifC13opUploadPin)
 	}
 
 	for s := 0; s < steps; s++ {
